@@ -1140,6 +1140,9 @@ func (se *stanzaEncoder) EncodeToken(t xml.Token) error {
 	switch tok := t.(type) {
 	case xml.StartElement:
 		se.depth++
+		// The attribute list is filtered and completed below; the token's list
+		// belongs to the caller (who may use it again), so work on a copy.
+		tok.Attr = append([]xml.Attr(nil), tok.Attr...)
 		// Add required attributes if missing:
 		if se.depth == 1 {
 			se.stanza = isStanzaEmptySpace(tok.Name) && !declaresForeignNS(tok)
